@@ -334,7 +334,7 @@ func runUnit(un Unit, u *U) (rep UnitReport) {
 }
 
 func runWorker(c Check, units []Unit, tier string, seed int64, k, w, budget int, verbose bool, report string) {
-	runtime.GOMAXPROCS(2)
+	runtime.GOMAXPROCS(1)
 	vsched.StartWatchdog(60 * time.Second)
 	start := time.Now()
 	deadline := start.Add(time.Duration(budget) * time.Second)
@@ -424,7 +424,7 @@ func coordinate(c Check, units []Unit, tier string, seed int64, nw, budget int, 
 				args = append(args, "-unit", only)
 			}
 			cmd := exec.Command(os.Args[0], args...)
-			cmd.Env = append(os.Environ(), "VERIF_SEED="+strconv.FormatInt(seed, 10), "GOMAXPROCS=2")
+			cmd.Env = append(os.Environ(), "VERIF_SEED="+strconv.FormatInt(seed, 10), "GOMAXPROCS=1")
 			var out, errb bytes.Buffer
 			cmd.Stdout = &out
 			cmd.Stderr = &errb
